@@ -28,6 +28,8 @@ package util
 //@   trusted
 //@   ensures result1 == nil ==> result0 != nil
 //@   ensures result1 != nil ==> result0 == nil
+//@   // the cache of builder clients is the only thing written (named by its heaps: every map[string]builder.Service)
+//@   modifies heap:MapDom_string__go_builder_client_Service, heap:MapVal_string__go_builder_client_Service
 //@
 //@ // strings.Split with a non-empty separator returns at least one element
 //@ extern strings.Split
